@@ -81,6 +81,7 @@ package ext
 //@   replay-go w := &vcgoWire2{b: []byte("a\r\n0123456789\r\n0\r\n\r\nGET /next HTTP/1.1\r\n\r\n")}; rs := AcquireBodyStream(&bytebufferpool.ByteBuffer{}, w, nil, -1); buf := make([]byte, 3); rs.Read(buf); err := ReleaseBodyStream(rs); if err != nil || string(w.b[w.pos:]) != "GET /next HTTP/1.1\r\n\r\n" { fmt.Printf("VCGO-VIOLATED after reading 3 bytes of a 10-byte chunk, releasing the stream returned %v and left the wire at %q\n", err, string(w.b[w.pos:])) }
 //@   replay-go w := &vcgoWire2{b: []byte("GET /next HTTP/1.1\r\n\r\n")}; pre := &bytebufferpool.ByteBuffer{}; pre.B = append(pre.B, "0123456789"...); rs := AcquireBodyStream(pre, w, nil, 10); buf := make([]byte, 6); rs.Read(buf); err := ReleaseBodyStream(rs); if err != nil || w.pos != 0 { fmt.Printf("VCGO-VIOLATED a 10-byte body that was prefetched completely: after reading 6 bytes, releasing the stream returned %v and took %d bytes of the next request off the wire\n", err, w.pos) }
 //@   replay-go body := strings.Repeat("b", 90); w := &vcgoWire2{b: []byte(body + "HTTP/1.1 200 OK\r\n\r\n")}; pre := &bytebufferpool.ByteBuffer{}; pre.B = append(pre.B, "0123456789"...); rs := AcquireBodyStream(pre, w, nil, 100); err := ReleaseBodyStream(rs); if err != nil || w.pos != 90 { fmt.Printf("VCGO-VIOLATED a 100-byte body of which 10 bytes were prefetched and nothing was read: releasing the stream returned %v and took %d bytes off the wire (90 belong to the body)\n", err, w.pos) }
+//@   replay-go w := &vcgoWire2{b: []byte("89abcdefghijNEXT")}; pre := &bytebufferpool.ByteBuffer{}; pre.B = append(pre.B, "01234567"...); rs := AcquireBodyStream(pre, w, nil, 20); buf := make([]byte, 12); n := 0; for n < 12 { m, err := rs.Read(buf[n:]); n += m; if err != nil { break } }; err := ReleaseBodyStream(rs); if err != nil || w.pos != 12 { fmt.Printf("VCGO-VIOLATED a 20-byte body with 8 bytes prefetched, 12 bytes read (%d from the wire): releasing the stream returned %v and left the wire at %d, the body ends at 12\n", n-8, err, w.pos) }
 //@   requires rs.contentLength >= 0 && rs.prefetchedBytes != nil ==> bsFixed(rs)
 //@   requires rs.reader != nil
 //@   requires rs.reader.avail >= 0
